@@ -157,6 +157,16 @@ def check_all_points(ureg, a, b, same):
             ("ureg.is_compatible_with(str,str)", lambda: ureg.is_compatible_with(a, b)),
             ("ureg.is_compatible_with(str,Unit)", lambda: ureg.is_compatible_with(a, ub)),
         ]
+    if isinstance(a, str) and isinstance(b, str):
+        # the same unit held by an object of another registry (a second registry, or what unpickling hands back): the predicate still
+        # says what a conversion to it does
+        other = _foreign_registry()
+        s_f, fub = attempt(other.Unit, b)
+        same_meaning = s_f == "ok" and attempt(lambda: repr(other.get_root_units(b)) == repr(ureg.get_root_units(b)) and repr(other.get_root_units(a)) == repr(ureg.get_root_units(a))) == ("ok", True)
+        if same_meaning and attempt(qa.to, fub)[0] == ("ok" if same else "err"):  # (only where both registries mean the same by the two names)
+            fqb = other.Quantity(1, b)
+            preds += [("Quantity.is_compatible_with(Unit of another registry)", lambda: qa.is_compatible_with(fub)), ("Quantity.is_compatible_with(Quantity of another registry)", lambda: qa.is_compatible_with(fqb)),
+                      ("Unit.is_compatible_with(Unit of another registry)", lambda: ua.is_compatible_with(fub)), ("ureg.is_compatible_with(Quantity, Unit of another registry)", lambda: ureg.is_compatible_with(qa, fub))]
     for tag, fn in preds:
         s, v = attempt(fn)
         if s == "err":
@@ -172,6 +182,17 @@ def check_all_points(ureg, a, b, same):
         raise Violation("ureg.check:refused_same_dimension", f"check({dict(dim_b)!r}) refused {a!r}: {v!r}")
     if not same and (s == "ok" or not isinstance(v, pint.DimensionalityError)):
         raise Violation("ureg.check:accepted_different_dimension", f"check({dict(dim_b)!r}) accepted {a!r}: {v!r}")
+
+
+_FOREIGN = []
+
+
+def _foreign_registry():
+    import pint
+
+    if not _FOREIGN:
+        _FOREIGN.append(pint.UnitRegistry())
+    return _FOREIGN[0]
 
 
 # ------------------------------------------------------------------------------------- sub-checks
